@@ -8,7 +8,6 @@ use compio_io::{
     AsyncRead, AsyncWrite,
     framed::{
         Framed,
-        codec::bytes::BytesCodec,
         frame::{AnyDelimited, CharDelimited, Framer, LengthDelimited, NoopFramer},
     },
 };
@@ -36,6 +35,25 @@ impl<B: IoBuf> compio_io::framed::codec::Decoder<Bytes, B> for RejectingCodec {
         } else {
             Ok(Bytes::from(b.to_vec()))
         }
+    }
+}
+
+/// Write-side codec of the `sink` operation: the identity on bytes, except that an item starting
+/// with 0xEF is REFUSED after half of it has already been written into the buffer (like a serializer
+/// failing on a late field). Nothing of a refused item may ever reach the writer.
+impl<B: IoBufMut> compio_io::framed::codec::Encoder<Bytes, B> for RejectingCodec {
+    type Error = std::io::Error;
+
+    fn encode(&mut self, item: Bytes, buf: &mut B) -> Result<(), Self::Error> {
+        use std::io::Write;
+        use compio_buf::IoBufMutExt;
+        let mut w = buf.as_writer();
+        if item.first() == Some(&0xEF) {
+            w.write_all(&item[..item.len().div_ceil(2)])?;
+            return Err(std::io::Error::new(std::io::ErrorKind::InvalidData, REJECT));
+        }
+        w.write_all(&item)?;
+        Ok(())
     }
 }
 
@@ -361,14 +379,14 @@ fn run_sink(spec: &FramerSpec, script: &[String], line: &str, ex: &mut Exec) -> 
     let r = catch(|| {
         with_framer!(spec, f, {
             let w = DelayW { log: log.clone(), delay: delay.clone() };
-            let mut framed = Framed::new::<Bytes, Bytes>(BytesCodec::new(), f).with_writer(w);
+            let mut framed = Framed::new::<Bytes, Bytes>(RejectingCodec, f).with_writer(w);
             let waker = futures_util::task::noop_waker();
             let mut cx = Context::from_waker(&waker);
             for call in script {
                 let (k, arg) = call.split_at(1);
                 let before_shutdowns = log.borrow().shutdowns;
                 let r = std::panic::catch_unwind(std::panic::AssertUnwindSafe(|| match k {
-                    "s" => {
+                    "s" | "e" => {
                         let p = unhex(arg);
                         Pin::new(&mut framed).start_send(Bytes::from(p)).map(|_| Poll::Ready(()))
                     }
@@ -394,13 +412,19 @@ fn run_sink(spec: &FramerSpec, script: &[String], line: &str, ex: &mut Exec) -> 
                     }
                     Ok(Err(_)) => {
                         res.push('E');
-                        break;
+                        if k != "e" {
+                            fails.push(("C13:sink-error", format!("{line}: call #{} `{call}` failed although neither codec nor writer fail", res.len())));
+                            break;
+                        }
                     }
                     Ok(Ok(Poll::Pending)) => res.push('P'),
                     Ok(Ok(Poll::Ready(()))) => {
                         res.push('R');
                         if k == "s" {
                             sent.extend(enclose_or_raw(spec, unhex(arg)));
+                        }
+                        if k == "e" {
+                            fails.push(("C13:sink-refused-item-accepted", format!("{line}: call #{} `{call}`: the codec refused the item but start_send answered Ok", res.len())));
                         }
                         let l = log.borrow();
                         if (k == "f" || k == "c") && (l.delivered != sent || !l.buffered.is_empty()) {
@@ -440,10 +464,13 @@ fn sink_encode(spec: &FramerSpec, frames: &[Vec<u8>], wmax: usize) -> Result<Vec
         with_framer!(spec, f, {
             let got = std::rc::Rc::new(std::cell::RefCell::new(vec![]));
             let w = RecWriter { got: got.clone(), max: wmax };
-            let mut framed = Framed::new::<Bytes, Bytes>(BytesCodec::new(), f).with_writer(w);
+            let mut framed = Framed::new::<Bytes, Bytes>(RejectingCodec, f).with_writer(w);
             futures_executor::block_on(async {
                 for fr in frames {
-                    framed.send(Bytes::from(fr.clone())).await.expect("send");
+                    let r = framed.send(Bytes::from(fr.clone())).await;
+                    // an item starting 0xEF is refused by the codec (after partial output): the
+                    // send fails, the sink stays usable and nothing of the item is transmitted
+                    assert_eq!(r.is_err(), fr.first() == Some(&0xEF), "send result");
                 }
                 framed.close().await.expect("close");
             });
@@ -500,6 +527,9 @@ fn exec_line(line: &str, ex: &mut Exec) -> String {
             if wf {
                 let mut expect = String::new();
                 for f in &frames {
+                    if f.first() == Some(&0xEF) {
+                        continue; // refused by the encoder: never transmitted
+                    }
                     if f.first() == Some(&0xEE) {
                         expect.push_str("decerr ");
                     } else {
@@ -618,8 +648,19 @@ fn generate(tier: &str, rng: &mut Rng) -> Vec<Case> {
                                 calls.push(format!("r{d}"));
                             }
                             let k = rng.below(6) as usize;
-                            let p = rng.bytes_from(k, b"abcxyz\x00\x01");
-                            calls.push(format!("s{}", hex(&p)));
+                            let mut p = rng.bytes_from(k, b"abcxyz\x00\x01");
+                            if rng.chance(1, 5) {
+                                // an item the codec refuses after partial output
+                                p.insert(0, 0xEF);
+                                calls.push(format!("e{}", hex(&p)));
+                                if conforming {
+                                    calls.push("r0".into());
+                                    p[0] = b'q';
+                                    calls.push(format!("s{}", hex(&p)));
+                                }
+                            } else {
+                                calls.push(format!("s{}", hex(&p)));
+                            }
                         }
                         3..=4 => {
                             let reps = if conforming { 2 * d + 2 } else { rng.range(1, 3) as usize };
@@ -678,6 +719,8 @@ fn generate(tier: &str, rng: &mut Rng) -> Vec<Case> {
                     let mut p = rng.bytes_from(len, b"abcxyz\n\xc3\xa9\xe2\x84\x9d\x00");
                     if rng.chance(1, 8) && !p.is_empty() {
                         p[0] = 0xEE; // a frame the codec will reject
+                    } else if rng.chance(1, 10) && !p.is_empty() {
+                        p[0] = 0xEF; // an item the encoder refuses after partial output
                     }
                     if matches!(spec, FramerSpec::Any(_) | FramerSpec::Char(_)) && !wellformed(&spec, &p) && rng.chance(9, 10) {
                         // mostly valid inputs: drop the delimiter bytes from the payload
